@@ -24,4 +24,17 @@ Section Run.
     end.
 
   Definition run := run_from 0%N.
+
+  (** Variant with a defect tag computed by the model side (0 = none): reported as
+      code + 4 * tag for the cases whose code is non-zero. *)
+  Variable tag : C -> N.
+  Fixpoint run_tagged_from (i : N) (l : list (C * O)) : list (N * N) :=
+    match l with
+    | [] => []
+    | (c, o) :: t =>
+        let k := code c o in
+        if N.eqb k 0 then run_tagged_from (N.succ i) t
+        else (i, (k + 4 * tag c)%N) :: run_tagged_from (N.succ i) t
+    end.
+  Definition run_tagged := run_tagged_from 0%N.
 End Run.
